@@ -308,6 +308,37 @@ def rule_p4(ctx, F):
     text_gate(ctx, "P4", fn, fmt, [("the stored output is re-formatted only for a test that is not :cst", [((".cst",), False), (("cst",), False)])], accept_desc="re-formatting a test's stored expected output")
 
 
+def rule_p5(ctx, F):
+    """P5: a test is written back under its own name and with its own text.  Every TestCorrection that run_tests records
+    takes its name, input, attribute text and delimiter lengths from fields of one and the same `TestEntry::Example` —
+    never from the enclosing group (whose `name` is the file stem and is in scope in the Group arm)."""
+    import rsrules
+    from rsrules import deep_text
+    fn = ctx.need_fn(F, "test::run_tests", "P5")
+    if not fn:
+        return
+    calls = calls_named(fn, "TestCorrection", "::new")
+    ctx.floor("TestCorrection::new calls in run_tests", len(calls), 7)
+    want = {0: ").as:Example).name", 3: ").as:Example).attributes_str", 4: ").as:Example).header_delim_len", 5: ").as:Example).divider_delim_len"}
+    badn = 0
+    for pt, c, d in calls:
+        texts = [deep_text(fn, a, user=True) for a in c.get("a", [])]
+        owners = set()
+        for i, suffix in want.items():
+            t = texts[i] if i < len(texts) else ""
+            if suffix not in t:
+                badn += 1
+                ctx.bad("P5", "run_tests:correction-fields-from-the-example:arg%d" % i, "run_tests records a correction at %s whose %s is `%s`, not a field of the test entry itself: with --update and a filter "
+                        "the test is written back under another name / with other delimiters" % (fn.loc(pt), ("name", "input", "output", "attribute text", "header length", "divider length")[i], t[:70]), {"site": fn.loc(pt)})
+            else:
+                owners.add(t.split(suffix)[0].lstrip("&*("))
+        if len(owners) > 1:
+            badn += 1
+            ctx.bad("P5", "run_tests:correction-fields-from-one-example", "the fields of the correction recorded at %s come from different entries (%s)" % (fn.loc(pt), sorted(owners)[:2]))
+    if not badn:
+        ctx.ok("P5", "run_tests:correction-fields-from-the-example", "all %d corrections take name, attribute text and delimiter lengths from the fields of one Example entry" % len(calls))
+
+
 def rule_p2(ctx, F):
     """P2: a corpus file is rewritten only from the *complete* list of its tests: write_tests is reached
     only after the loop over the group's children ran to exhaustion (a fail-fast stop must leave the
@@ -606,6 +637,7 @@ def run(ctx):
     rule_p2(ctx, F)
     rule_p3(ctx, F)
     rule_p4(ctx, F)
+    rule_p5(ctx, F)
     return ctx.finish(
         "Field-flow, taint and path-counting rules over rustc MIR of crates/cli/src/test.rs: each TestCorrection is built from the entry's own name/input/attributes/delimiter lengths; "
         "the writer reads every field; with --update each Example path to Ok(true) records exactly one correction; the recognised delimiter suffix must reach the entry. "
